@@ -15,3 +15,60 @@ pub mod diag {
         ext_diag.fill(buf)
     }
 }
+
+/// Access to the crate-private `fdl::TokenRing` (LAS, NS/PS bookkeeping).
+pub mod token_ring {
+    /// Thin wrapper around `crate::fdl::TokenRing`; every method forwards unchanged.
+    #[derive(Clone, PartialEq, Eq)]
+    pub struct TokenRing(crate::fdl::TokenRing);
+
+    impl TokenRing {
+        pub fn new(param: &crate::fdl::Parameters) -> Self {
+            Self(crate::fdl::TokenRing::new(param))
+        }
+
+        pub fn witness_token_pass(&mut self, sa: crate::Address, da: crate::Address) {
+            self.0.witness_token_pass(sa, da)
+        }
+
+        pub fn claim_token(&mut self) {
+            self.0.claim_token()
+        }
+
+        pub fn set_next_station(&mut self, address: crate::Address) {
+            self.0.set_next_station(address)
+        }
+
+        pub fn remove_station(&mut self, address: crate::Address) {
+            self.0.remove_station(address)
+        }
+
+        pub fn ready_for_ring(&self) -> bool {
+            self.0.ready_for_ring()
+        }
+
+        pub fn this_station(&self) -> crate::Address {
+            self.0.this_station()
+        }
+
+        pub fn next_station(&self) -> crate::Address {
+            self.0.next_station()
+        }
+
+        pub fn previous_station(&self) -> crate::Address {
+            self.0.previous_station()
+        }
+
+        /// The LAS in ascending address order (`iter_active_stations()` collected).
+        #[cfg(feature = "std")]
+        pub fn active_stations(&self) -> std::vec::Vec<crate::Address> {
+            self.0.iter_active_stations().collect()
+        }
+
+        /// `format!("{:?}", token_ring)` of the wrapped value.
+        #[cfg(feature = "std")]
+        pub fn debug_string(&self) -> std::string::String {
+            std::format!("{:?}", self.0)
+        }
+    }
+}
